@@ -6,6 +6,7 @@ import subprocess
 import core
 import decode_checks
 import pair_checks
+import track_checks
 
 
 def decode_check(prop, tier, seed, rep):
@@ -16,6 +17,8 @@ CHECKS = {p: decode_check for p in ("C01", "C02", "C03", "C04", "C06", "C07", "C
 
 
 CHECKS["C05"] = pair_checks.run
+for _p in ("C12", "C13", "C14", "C15"):
+    CHECKS[_p] = track_checks.run
 
 
 def setup():
@@ -43,6 +46,45 @@ def replay(path):
         events = core.run_hx(hx, ["decode", "--ops"], [{"bytes": w["bytes"]}])
         verdicts, st, tr = core.validate_events("Trace_Decode", events, "replay", shards=1)
         rep.add_trace_stats(st, tr, 1)
+        for v in verdicts:
+            for owner, field in v["pairs"]:
+                rep.mismatch(owner, v["cls"], field, w)
+        rep.samples = events
+    elif w["kind"] == "track":
+        hx = core.build_hx("std")
+        groups = track_checks.record(hx, [w["history"]])
+        events = groups[0]
+        verdicts, st, tr = core.validate_events("Trace_Tracker", events, "replay", shards=1)
+        rep.add_trace_stats(st, tr, 1)
+        for v in verdicts:
+            for owner, field in v["pairs"]:
+                rep.mismatch(owner, v["cls"], field, w)
+            if os.environ.get("VERIF_VERBOSE"):
+                print("VERDICT at event", v["index"], v["cls"], v["pairs"])
+                ev = events[v["index"]]
+                by = bytes(ev.get("bytes", []))
+                addr = int.from_bytes(by[1:4], "big") if len(by) >= 4 else -1
+                def brief(e):
+                    for p in e.get("planes", []):
+                        if p["addr"] == addr:
+                            return {k: p[k] for k in ("n", "even", "odd", "pos", "dist", "track", "det", "hasvel")}
+                    return None
+                j = v["index"] - 1
+                while j > 0 and "planes" not in events[j]:
+                    j -= 1
+                print("  reset:", json.dumps(events[0]))
+                print("  frame:", by.hex(), "added", ev.get("added"), ev.get("outcome"), ev.get("T", ""))
+                print("  before:", json.dumps(brief(events[j])))
+                print("  after: ", json.dumps(brief(ev)))
+        rep.samples = events[:3]
+    elif w["kind"] == "pair":
+        hx = core.build_hx("std")
+        e = w["event"]
+        r = subprocess.run([hx, "pair"], input=json.dumps({"tag": e.get("tag", ""), "first": [e["first"]["odd"], e["first"]["lat"], e["first"]["lon"]],
+                                                            "second": [e["second"]["odd"], e["second"]["lat"], e["second"]["lon"]]}) + "\n",
+                           stdout=subprocess.PIPE, text=True)
+        events = [json.loads(l) for l in r.stdout.splitlines() if l.strip()]
+        verdicts, st, tr = core.validate_events("Trace_Pair", events, "replay", shards=1)
         for v in verdicts:
             for owner, field in v["pairs"]:
                 rep.mismatch(owner, v["cls"], field, w)
